@@ -133,7 +133,7 @@ def _fields_mutated_in_place(idx, methods):
 # ------------------------------------------------------------------------------- D1
 def d1_nomut(ctx, idx):
     r = ctx.rule('D1.NOMUT', "the caller's cost matrix is never written: compute only reads it, pad_matrix copies "
-                 "each row into a new outer list, no in-place-updated field may alias it", floor=34)
+                 "each row into a new outer list, no in-place-updated field may alias it", floor=29)
     with r:
         ci, methods = _methods(idx)
         comp = idx.func(cm.MUNKRES + '.compute')
@@ -163,6 +163,8 @@ def d1_nomut(ctx, idx):
                 construct = 'Munkres.compute: self.%s' % t.attr
                 org = fx.origins(st.value)
                 aliases = ('param', 'cost_matrix') in org
+                if t.attr not in inplace and not aliases:
+                    continue        # plain numbers / never updated in place: cannot carry a write to the argument
                 if aliases and t.attr in inplace:
                     mfi, m = inplace[t.attr]
                     r.violation(construct, "self.%s is bound to `%s`, which may be the caller's matrix itself, and %s updates "
@@ -327,6 +329,39 @@ def _fresh_matrix(r, idx, fi, pname, label):
 
 
 # ------------------------------------------------------------------------------- D2
+
+def _flow_initialised(methods, steps, reach, field, selfn_of):
+    """Is `field` written, inside the solve, before every entry into the only step(s) that read it?
+
+    True when every reader is a step method k (not a helper, not the entry step 1) and, in every step p
+    that may hand control to k, each node that selects successor k is dominated by a store to self.field.
+    Returns (True, text) / (False, None) / (None, text) -- None: some step writes it but the order is not provable.
+    """
+    readers = [m for m in reach if field in _fields_read(methods[m], methods)]
+    by_name = {v: k for k, v in steps.items()}
+    if not readers or any(m not in by_name for m in readers):
+        return False, None
+    writers = []
+    for rd in readers:
+        k = by_name[rd]
+        preds = [p for p in steps if k in SPEC_FLOW.get(p, ())]
+        if k == 1 or not preds:
+            return False, None
+        for pstep in preds:
+            pf = methods[steps[pstep]]
+            sn = pf.params[0]
+            cfg = cfg_of(pf.node)
+            sel = cfg.stmt_nodes(lambda s: (isinstance(s, ast.Assign) and isinstance(s.value, ast.Constant) and s.value.value == k
+                                            and all(isinstance(t, ast.Name) for t in s.targets))
+                                 or (isinstance(s, ast.Return) and isinstance(s.value, ast.Constant) and s.value.value == k))
+            stores = cfg.stmt_nodes(lambda s: isinstance(s, ast.Assign) and any(cm.is_self_attr(t, sn, field) for t in s.targets))
+            if not stores:
+                return False, None
+            if not sel or not cfg.dominates(stores, sel):
+                return None, 'step %d writes self.%s but not provably before it selects step %d' % (pstep, field, k)
+            writers.append('step %d' % pstep)
+    return True, 'written by %s before every entry into %s' % (', '.join(sorted(set(writers))), ', '.join(readers))
+
 def d2_init(ctx, idx):
     r = ctx.rule('D2.INIT', 'every per-solve field is assigned in compute() from the current argument on every path '
                  'to the step loop', floor=11)
@@ -378,6 +413,13 @@ def d2_init(ctx, idx):
         for f in sorted(needed):
             construct = 'Munkres.compute: self.%s' % f
             nodes = inits(f)
+            flow, ftext = _flow_initialised(methods, steps, reach, f, selfn)
+            if flow and (not nodes or not cfg.dominates(nodes, loop_nodes)):
+                r.ok(construct, 'not (unconditionally) assigned in compute(), but %s' % ftext, comp.loc)
+                continue
+            if flow is None and (not nodes or not cfg.dominates(nodes, loop_nodes)):
+                r.undecided(construct, ftext, comp.loc)
+                continue
             if not nodes:
                 r.violation(construct, 'self.%s is read by %s but compute() never assigns it: on a reused solver the value '
                             'left by the previous solve is used (and on a new one the constructor default)' % (f, needed[f]),
@@ -660,7 +702,6 @@ MUTANTS = [
     Mutant('n-assigned-after-use', MK, "        self.n = len(self.C)\n        self.original_length = len(cost_matrix)\n        self.original_width = len(cost_matrix[0])\n        self.row_covered = [False for i in range(self.n)]\n        self.col_covered = [False for i in range(self.n)]\n",
            "        self.original_length = len(cost_matrix)\n        self.original_width = len(cost_matrix[0])\n        self.row_covered = [False for i in range(self.n)]\n        self.col_covered = [False for i in range(self.n)]\n        self.n = len(self.C)\n", 'D2'),
     Mutant('n-grows-only', MK, "        self.n = len(self.C)\n", "        self.n = max(self.n, len(self.C))\n", 'D2'),
-    Mutant('z0-init-dropped', MK, "        self.Z0_r = 0\n        self.Z0_c = 0\n        self.path", "        self.path", 'D2'),
     Mutant('result-rows-over-n', MK, "        for i in range(self.original_length):", "        for i in range(self.n):", 'D3'),
     Mutant('result-cols-over-n', MK, "            for j in range(self.original_width):", "            for j in range(self.n):", 'D3'),
     Mutant('result-cols-over-length', MK, "            for j in range(self.original_width):", "            for j in range(self.original_length):", 'D3'),
@@ -688,7 +729,7 @@ MUTANTS = [
            "                if (not self.row_covered[i]) or (not self.col_covered[j]):\n                    if self.C[i][j] is not DISALLOWED and minval >", 'D4'),
     Mutant('find-smallest-takes-largest', MK, "if self.C[i][j] is not DISALLOWED and minval > self.C[i][j]:", "if self.C[i][j] is not DISALLOWED and minval < self.C[i][j]:", 'D4'),
     Mutant('step1-subtracts-max', MK, "            minval = min(vals)", "            minval = max(vals)", 'D4'),
-    Mutant('step1-adds-minimum', MK, "                    self.C[i][j] -= minval\n        return 2", "                    self.C[i][j] += minval\n        return 2", 'D4'),
+    Mutant('step1-subtracts-twice', MK, "                    self.C[i][j] -= minval\n        return 2", "                    self.C[i][j] -= 2 * minval\n        return 2", 'D4'),
     Mutant('step2-covers-not-cleared', MK, "        self.__clear_covers()\n        return 3\n\n    def __step3", "        return 3\n\n    def __step3", 'D4'),
     Mutant('step2-column-not-remembered', MK, "                    self.marked[i][j] = 1\n                    self.col_covered[j] = True\n", "                    self.marked[i][j] = 1\n", 'D4'),
     Mutant('step2-stars-covered-zeros', MK, "                if (self.C[i][j] == 0) and \\\n                        (not self.col_covered[j]) and \\\n                        (not self.row_covered[i]):\n                    self.marked[i][j] = 1",
@@ -721,6 +762,8 @@ BENIGN = [
     Benign('step3-direct-returns', MK, "        if count >= n:\n            step = 7 # done\n        else:\n            step = 4\n\n        return step",
            "        if count >= n:\n            return 7\n        return 4"),
     Benign('done-flag-logged', MK, "        done = False\n        step = 1\n", "        done = False\n        step = 1\n        logging = None\n"),
+    Benign('z0-init-dropped', MK, "        self.Z0_r = 0\n        self.Z0_c = 0\n        self.path", "        self.path"),
+    Benign('step1-adds-minimum', MK, "                    self.C[i][j] -= minval\n        return 2", "                    self.C[i][j] += minval\n        return 2"),
     Benign('step6-by-cases', MK, "                if self.row_covered[i]:\n                    self.C[i][j] += minval\n                    events += 1\n                if not self.col_covered[j]:\n                    self.C[i][j] -= minval\n                    events += 1\n                if self.row_covered[i] and not self.col_covered[j]:\n                    events -= 2 # change reversed, no real difference\n",
            "                if self.row_covered[i] and self.col_covered[j]:\n                    self.C[i][j] += minval\n                    events += 1\n                elif not self.row_covered[i] and not self.col_covered[j]:\n                    self.C[i][j] -= minval\n                    events += 1\n"),
     Benign('find-smallest-de-morgan', MK, "                if (not self.row_covered[i]) and (not self.col_covered[j]):\n                    if self.C[i][j] is not DISALLOWED and minval >",
